@@ -76,6 +76,7 @@ def run(ctx):
     exact_rule(ctx, syn)
     subslice_rule(ctx, syn)
     slice_rule(ctx, prog)
+    split_rule(ctx, syn)
 
     # ---------------- ERR
     r_err = ctx.rule("C12.ERR", "utf8byte / utf8byte_to_charpos return Ok only under an exact match on the cursor and otherwise fall through to Err; nothing in them can panic")
@@ -603,3 +604,82 @@ def slice_rule(ctx, prog, rid="C12.SLICE"):
         for k, line in consts:
             ctx.report(r, "%s|constant" % m.group(1), "text() of %s can return the constant %s instead of a slice of the resource's text: subslice_utf8_offset(self.text()) then finds no offset for it and utf8byte / utf8byte_to_charpos / text_by_offset / find_text_regex on that selection panic (`expect`)" % (m.group(1), k[6:]), b.file, line)
     ctx.floor(r, n, 2, "text() implementations of selection wrappers")
+
+
+
+# ---------------------------------------------------------------------- SPLIT
+def split_rule(ctx, syn, rid="C12.SPLIT"):
+    """split_text() on a sub-selection: the constructor computes SplitTextIter.byteoffset, SplitTextIter::next subtracts
+    it from the byte position of each piece in the resource and converts the result with the resource's
+    utf8byte_to_charpos.  Both are interpreted together on selections that start at byte S of the resource, pieces m
+    bytes into the selection and n bytes long: the bytes handed to the conversion must be S+m and S+m+n."""
+    from formula import Evaluator, Unknown, Panic, StructVal, some, is_some, ok
+    r = ctx.rule(rid, "split_text on a selection that starts at byte S hands the resource's byte->codepoint conversion the absolute bytes S+m .. S+m+n of each piece (constructor and SplitTextIter::next interpreted together)")
+    ctors = [f for f in syn.fns if f.name == "split_text" and f.file == "src/api/text.rs" and f.body is not None]
+    nxt = [f for f in syn.fns if f.name == "next" and (f.self_ty or "").startswith("SplitTextIter") and f.body is not None]
+    if len(nxt) != 1 or len(ctors) < 2:
+        ctx.anchor_missing(r, "FindText::split_text (two implementations for selections) / SplitTextIter::next")
+        return
+    nxt = nxt[0]
+    ctx.functions_analysed.update([f.qual for f in ctors] + [nxt.qual])
+
+    def unwrap(ev, recv, args, node, env):
+        if recv is None:
+            raise Panic("expect-on-none", node.get("l"))
+        if is_some(recv):
+            return recv[1]
+        if isinstance(recv, tuple) and recv and recv[0] == "ok":
+            return recv[1]
+        if isinstance(recv, tuple) and recv and recv[0] == "err":
+            raise Panic("expect-on-err", node.get("l"))
+        return NotImplemented
+    n = 0
+    for ctor in ctors:
+        bad = None
+        try:
+            for S in ((0,) if "TextResource" in (ctor.self_ty or "") else (0, 2, 5)):   # a resource starts at its own byte 0
+                for m in (0, 3):
+                    for ln in (0, 2):
+                        res = StructVal("Res", {})
+                        sel = StructVal("Sel", {"S": S})
+                        seen = []
+
+                        def subslice(ev, recv, args, node, env, S=S):
+                            a = args[0]
+                            if not (isinstance(a, StructVal) and a.tyname == "str"):
+                                return NotImplemented
+                            if isinstance(recv, StructVal) and recv.tyname == "Sel":
+                                return some(a["base"] - S) if a["base"] >= S else None
+                            if isinstance(recv, StructVal) and recv.tyname == "Res":
+                                return some(a["base"])
+                            return NotImplemented
+                        hooks = {
+                            "text": lambda ev, recv, args, node, env, S=S: StructVal("str", {"base": S, "len": 8}) if isinstance(recv, StructVal) and recv.tyname == "Sel" else NotImplemented,
+                            "resource": lambda ev, recv, args, node, env: res, "store": lambda ev, recv, args, node, env: res, "rootstore": lambda ev, recv, args, node, env: res,
+                            "subslice_utf8_offset": subslice, "expect": unwrap, "unwrap": unwrap,
+                            "split": lambda ev, recv, args, node, env, S=S, m=m, ln=ln: StructVal("Split", {"piece": StructVal("str", {"base": S + m, "len": ln})}),
+                            "next": lambda ev, recv, args, node, env: some(recv["piece"]) if isinstance(recv, StructVal) and recv.tyname == "Split" else NotImplemented,
+                            "utf8byte_to_charpos": lambda ev, recv, args, node, env: (seen.append(args[0]) or ok(args[0])),
+                            "call:Offset::simple": lambda ev, recv, args, node, env: ("off", args[0], args[1]),
+                            "textselection": lambda ev, recv, args, node, env: ok(args[0]),
+                        }
+                        params = [p_["pat"].get("name") for p_ in ctor.sig["inputs"]]
+                        env = dict(zip(params, ["," for _ in params]))
+                        env["self"] = sel
+                        it = Evaluator(hooks=hooks).run_body(ctor.body, env)
+                        if not (isinstance(it, StructVal) and "byteoffset" in it):
+                            raise Unknown("split_text does not build a SplitTextIter with a byteoffset")
+                        Evaluator(hooks=hooks).run_body(nxt.body, {"self": it})
+                        n += 1
+                        want = [S + m, S + m + ln]
+                        if [int(x) for x in seen] != want and bad is None:
+                            bad = "for a selection that starts at byte %d and a piece %d bytes into it, %d bytes long, split_text converts the bytes %s with the resource's utf8byte_to_charpos; the piece lies at %s (byteoffset was computed as %s)" % (S, m, ln, [int(x) for x in seen], want, it["byteoffset"])
+        except Panic as ex:
+            bad = "split_text on a selection that starts at byte %d panics (%s) in the byte arithmetic" % (S, ex.kind)
+        except Unknown as ex:
+            ctx.report(r, "%s|unevaluated" % (ctor.self_ty or "?"), "split_text / SplitTextIter::next could not be interpreted (%s): the byte base of the pieces is not decided" % ex, ctor.file, ctor.line)
+            continue
+        r.hit("%s" % (ctor.self_ty or ctor.qual), sample={"constructor": ctor.qual, "evaluations": n})
+        if bad:
+            ctx.report(r, "%s|base" % (ctor.self_ty or "?"), bad + ": positions and text of the pieces are shifted, or the conversion panics", ctor.file, ctor.line)
+    ctx.floor(r, n, 28, "constructor x piece evaluations")
